@@ -193,7 +193,10 @@ impl ConfigReloader {
 
     fn run(&mut self, mut rate: Duration) {
         loop {
+            #[cfg(not(log4rs_verif))]
             thread::sleep(rate);
+            #[cfg(log4rs_verif)]
+            crate::verif_hooks::reloader_sleep(rate);
 
             match self.run_once(rate) {
                 Ok(Some(r)) => rate = r,
